@@ -235,6 +235,7 @@ func (self *Analyzer) typeDefStatement(node pAst.TypeDefinition) ast.AnalyzedTyp
 	return ast.AnalyzedTypeDefinition{
 		LhsIdent: node.LhsIdent.Ident(),
 		RhsType:  converted,
+		IsPub:    node.IsPub,
 		Range:    node.Range,
 	}
 }
@@ -393,6 +394,7 @@ func (self *Analyzer) letStatement(node pAst.LetStatement, isGlobal bool) ast.An
 		VarType:                    varType,
 		NeedsRuntimeTypeValidation: rhsHasAny,
 		OptType:                    optType,
+		IsPub:                      node.IsPub,
 		Range:                      node.Range,
 	}
 }
